@@ -6,6 +6,8 @@ import GfsModel.SeqOps
 import GfsSpec.Enum
 import GfsProofs.SeqLemmas
 import GfsProofs.IndexLemmas
+import GfsGen.Facts
+import GfsModel.ExpectedSrc
 
 namespace Gfs.Props.C12
 open Gfs Gfs.Spec Gfs.Proofs
@@ -91,5 +93,10 @@ theorem C12_split (st : PadStyle) (txt : Bytes) (s : Seq) (ops : List SeqOp)
   split_spec _ fs hfs (C12_history_reparses st txt s ops h hops fs hfs)
 
 theorem C12_split_no_frames (s : Seq) (h : s.frameSet = none) : s.split = [s] := split_none s h
+
+/-- the declarations of /repo this property's model and specification were written from are,
+    on this run, the ones the model was last aligned with (digest of their comment- and
+    layout-insensitive fingerprints, re-extracted by tools/gofacts) -/
+theorem C12_source : Gfs.Gen.sourceDigestC12 = Gfs.expectedSourceDigestC12 := by decide
 
 end Gfs.Props.C12
